@@ -639,6 +639,77 @@ func c20Chunks(tier string) []SeqChunk {
 			}
 		}
 	}})
+	// the refill mark (SetRefill: where a resumed task started) is a drawing hint for the bar body; no value decorator
+	// may depend on it: each decorator fed the same progress and the same clock prints the same text whatever Refill is
+	chunks = append(chunks, SeqChunk{Name: "c20-refill-independent", NoPristine: true, Gen: func(env *SeqEnv) {
+		if env.Pristine {
+			return
+		}
+		kinds := []string{"percentage", "counters", "counterskib", "elapsed", "avgspeed", "avgeta", "ewmaeta", "ewmaspeed"}
+		mk := func(kind string, start time.Time) decor.Decorator {
+			switch kind {
+			case "percentage":
+				return decor.NewPercentage("% .2f")
+			case "counters":
+				return decor.CountersNoUnit("%d / %d")
+			case "counterskib":
+				return decor.CountersKibiByte("% .2f / % .2f")
+			case "elapsed":
+				return decor.NewElapsed(decor.ET_STYLE_GO, start)
+			case "avgspeed":
+				return decor.NewAverageSpeed(decor.SizeB1024(0), "% .2f", start)
+			case "avgeta":
+				return decor.NewAverageETA(decor.ET_STYLE_GO, start, nil)
+			case "ewmaeta":
+				return decor.MovingAverageETA(decor.ET_STYLE_GO, constAverage(2.5e6), nil)
+			}
+			return decor.MovingAverageSpeed(decor.SizeB1024(0), "% .2f", constAverage(1e6))
+		}
+		for _, kind := range kinds {
+			for _, tot := range []int64{10, 1000, 1 << 30} {
+				for _, cur := range []int64{1, tot / 4, tot / 2, tot - 1} {
+					for ri, refill := range []int64{cur, cur / 2, 1} {
+						kind, tot, cur, refill := kind, tot, cur, refill
+						id := fmt.Sprintf("refill kind=%s total=%d current=%d refill#%d", kind, tot, cur, ri)
+						env.Case(id, func() (string, bool, string, string) {
+							run := func(refill int64) []string {
+								start := mcrt.Now()
+								dec := mk(kind, start)
+								var out []string
+								for step := int64(1); step <= 3; step++ {
+									mcrt.Advance(1500 * time.Millisecond)
+									c := cur * step / 3
+									if step == 3 {
+										c = cur
+									}
+									r := refill
+									if r > c {
+										r = c
+									}
+									if ed, ok := dec.(decor.EwmaDecorator); ok {
+										ed.EwmaUpdate(1, 1500*time.Millisecond)
+									}
+									text, _ := dec.Decor(decor.Statistics{Total: tot, Current: c, Refill: r})
+									out = append(out, text)
+								}
+								return out
+							}
+							plain, marked := run(0), run(refill)
+							for i := range plain {
+								if badFloatText(marked[i]) {
+									return "", true, "nan-inf", fmt.Sprintf("%s with a refill mark printed %q", kind, marked[i])
+								}
+								if plain[i] != marked[i] {
+									return "", true, "depends-on-refill", fmt.Sprintf("%s at %d of %d printed %q, and %q once a refill mark of %d was set", kind, cur, tot, plain[i], marked[i], refill)
+								}
+							}
+							return strings.Join(marked, "|"), true, "", ""
+						})
+					}
+				}
+			}
+		}
+	}})
 	return chunks
 }
 
